@@ -232,8 +232,8 @@ def gen_spec(path, seed, entries):
     rnd = random.Random(seed)
     lines = []
     members = [b'ANY', b'1:2:3:4:5:6:7:8', b'ffff:FFFF:0:00:000:0000:a:B', b'1:2:3:4:5:6:7', b'1:2:3:4:5:6:7:8:9', b'12345:2:3:4:5:6:7:8', b':2:3:4:5:6:7:8',
-               b'1:2:3:4:5:6:7:', b'g:2:3:4:5:6:7:8', b'ANY ', b'any', b'', b':', b'::::::::', b':::::::']
-    alphabet = b'0123456789abcdefABCDEFg:ANY \xff'
+               b'1:2:3:4:5:6:7:', b'g:2:3:4:5:6:7:8', b'ANY ', b'any', b'', b':', b'::::::::', b':::::::', b'/a/b', b'a/b_1/C', b'/', b'a//b', b'/a/', b'1a/b', b'a' * 128, b'a' * 129, b'/' + b'a' * 128 + b'/b', b'ab:cd:ef:01:23:45', b'ab:cd:ef:01:23:4', b'abc:d:ef:01:23:45']
+    alphabet = b'0123456789abcdefABCDEFg:ANY/_ \xff'
     for idx, fn in entries:
         ins = list(members)
         for _ in range(300):
@@ -284,8 +284,69 @@ def run_spec(mirdir, cases, native, entries):
     return 0 if not bad else 1
 
 
+def gen_names(path, seed):
+    """cases for the name lookups executed by E2: `name <table> <hex>`: every 7th item text, one-edit neighbours, random texts"""
+    import e2defs
+    rnd = random.Random(seed)
+    lines = []
+    for t, key in enumerate(('attr', 'enum', 'elem')):
+        tab = e2defs.string_table(e2defs.TABLES[key][0])
+        picks = [tab[i] for i in range(0, len(tab), max(1, len(tab) // 60))]
+        ins = list(picks) + [b'', b'a', b'A', b'xmlns', b'DEST', b'dest']
+        for m in picks[:40]:
+            k = rnd.randrange(len(m))
+            ins += [m[:k] + m[k + 1:], m + b'X', m.lower(), m[:k] + bytes([m[k] ^ 0x20]) + m[k + 1:]]
+        for _ in range(40):
+            ins.append(bytes(rnd.choice(b'ABCDEFGHIJKLMNOPQRSTUVWXYZ-abc019') for _ in range(rnd.randint(1, 12))))
+        for b in ins:
+            lines.append(f'name {t} {hexs(b)}')
+    open(path, 'w').write('\n'.join(lines) + '\n')
+    return len(lines)
+
+
+def run_names(mirdir, cases, native):
+    import z3
+    import e2defs
+    from e2lib import load_program, Slice, bv, Unsupported, Panic
+    from mirexec import Executor, BoundExceeded
+    from models import Models
+    prog = load_program(mirdir)
+    ex = Executor(prog, Models(), max_visits=4096, max_steps=2000000)
+    e2defs.install_spec_consts(ex)
+    fns = {}
+    for t, key in enumerate(('attr', 'enum', 'elem')):
+        fname = e2defs.TABLES[key][0]
+        fns[str(t)] = [x for x in prog.raw if x.endswith('::from_bytes') and fname in x][0]
+    lines = [ln.split() for ln in open(cases) if ln.strip()]
+    nat = [ln.strip() for ln in open(native)]
+    if len(nat) != len(lines):
+        print(json.dumps(dict(ok=False, error=f'native results {len(nat)} lines, cases {len(lines)}')))
+        return 1
+    bad = []
+    ex.prefix, ex.trace, ex.pc, ex.pending, ex.steps = [], [], [], [], 0
+    for f, want in zip(lines, nat):
+        ex.steps = 0
+        b = b'' if f[2] == '-' else bytes.fromhex(f[2])
+        try:
+            r = ex.call(fns[f[1]], [Slice([bv(x, 8) for x in b], 0, len(b), False)])
+            got = f'Ok {r.fields[0].conc()}' if r.variant == 'Ok' else 'Err'
+        except Panic as p:
+            got = 'PANIC ' + p.msg
+        except (Unsupported, BoundExceeded) as u:
+            got = 'UNSUPPORTED ' + str(u)
+        if got != want:
+            bad.append(dict(case=' '.join(f), native=want, mir=got))
+    print(json.dumps(dict(ok=not bad, compared=len(lines), disagreements=bad[:10], n_disagreements=len(bad),
+                          functions=sorted(ex.functions_executed), models=sorted(ex.models_used))))
+    return 0 if not bad else 1
+
+
 if __name__ == '__main__':
-    if sys.argv[1] == 'genspec':
+    if sys.argv[1] == 'gennames':
+        print(gen_names(sys.argv[2], int(sys.argv[3])))
+    elif sys.argv[1] == 'runnames':
+        sys.exit(run_names(sys.argv[2], sys.argv[3], sys.argv[4]))
+    elif sys.argv[1] == 'genspec':
         print(gen_spec(sys.argv[2], int(sys.argv[3]), json.loads(sys.argv[4])))
     elif sys.argv[1] == 'runspec':
         sys.exit(run_spec(sys.argv[2], sys.argv[3], sys.argv[4], json.loads(sys.argv[5])))
